@@ -50,4 +50,21 @@ theorem C04_resize_preserves_content {K V : Type} [DecidableEq K] (p : Model.Pro
     ∀ k, Proofs.ProtoData.absGet g' k = Proofs.ProtoData.absGet s.g k :=
   C03.C03_resize_preserves_content p hmin s h t c g' l' hpc hh hs
 
+/-! M4a is the common protocol model of `map.go` and `mapof.go` (the bucket function `p.bkt` is arbitrary = any
+hasher, also a constant one): the linearizability theorems of `Props/C03.lean` are the theorems of C04 too.  They are
+re-exported here under C04 names so that C04's axiom audit covers them. -/
+section lin
+variable {K V : Type} [DecidableEq K] (p : Model.Proto.Params K)
+
+theorem C04_writer_linearizable : type_of% (@C03.C03_C04_writer_linearizable K V _ p) := @C03.C03_C04_writer_linearizable K V _ p
+theorem C04_load_hindsight : type_of% (@C03.C03_C04_load_hindsight K V _ p) := @C03.C03_C04_load_hindsight K V _ p
+theorem C04_log_legal_state : type_of% (@C03.C03_C04_log_legal_state K V _ p) := @C03.C03_C04_log_legal_state K V _ p
+theorem C04_writer_once : type_of% (@C03.C03_C04_writer_once K V _ p) := @C03.C03_C04_writer_once K V _ p
+theorem C04_reader_point : type_of% (@C03.C03_C04_reader_point K V _ p) := @C03.C03_C04_reader_point K V _ p
+theorem C04_fastpath_point : type_of% (@C03.C03_C04_fastpath_point K V _ p) := @C03.C03_C04_fastpath_point K V _ p
+theorem C04_content_changes_only_at_commit_or_clear : type_of% (@C03.C03_content_changes_only_at_commit_or_clear K V _ p) := @C03.C03_content_changes_only_at_commit_or_clear K V _ p
+theorem C04_clear_empties : type_of% (@C03.C03_clear_empties K V _ p) := @C03.C03_clear_empties K V _ p
+
+end lin
+
 end Props.C04
